@@ -8,7 +8,7 @@
    step ([a_other]) and therefore universally quantified in the theorems.
    Definitions only; lemmas in Proofs/C15.v. *)
 From Coq Require Import List NArith Bool String.
-From GQ Require Import Lib.C15_Row Generated.C15JumpTable.
+From GQ Require Import Lib.C15_Row Lib.C15_Wire Generated.C15JumpTable.
 Import ListNotations.
 Local Open Scope N_scope.
 
@@ -185,11 +185,16 @@ Definition total_words (fs : list mstate) : N := sumN (map words_of fs).
    one observed charge phase of the real interpreter (harness/cmd/c15, through a vm.Tracer):
    fork (0 = before MaxCodeSizeForkHeight, 1 = after), opcode, the step's inputs and the frame
    state before; observed: verdict class, gas / memory length / lastGasCost after. *)
-Record case := mkCase {
-  c_id : N; c_fork : N; c_op : N; c_args : args; c_pre : mstate;
-  c_verdict : N;       (* 0 ok 1 invalid 2 underflow 3 stack overflow 4 out of gas 5 gas uint overflow *)
-  c_post : mstate
-}.
+Inductive case :=
+| mkCase (c_id c_fork c_op : N) (c_args : args) (c_pre : mstate)
+         (c_verdict : N)       (* 0 ok 1 invalid 2 underflow 3 stack overflow 4 out of gas 5 gas uint overflow *)
+         (c_post : mstate)
+(* (A) one call of the real coinbase parsers: input bytes; observed
+   ExtractScriptSigFromCoinbaseTx (None = nil) and ExtractSealHashFromCoinbase of it (None = error) *)
+| mkWire (w_id : N) (w_tx : list N) (w_sig w_seal : option (list N)).
+
+Definition case_id (c : case) : N :=
+  match c with mkCase i _ _ _ _ _ _ => i | mkWire i _ _ _ => i end.
 
 Definition verdict_code (v : verdict) : N :=
   match v with VOk => 0 | VInvalid => 1 | VUnderflow => 2 | VStackOverflow => 3 | VOutOfGas => 4 | VGasOverflow => 5 end.
@@ -199,13 +204,21 @@ Definition table_of_fork (f : N) : table := if f =? 0 then table_prefork else ta
 Definition mstate_eqb (a b : mstate) : bool :=
   (m_gas a =? m_gas b) && (m_mem a =? m_mem b) && (m_last a =? m_last b).
 
+Definition wire_seal (tx : list N) : option (list N) :=
+  match extract_script_sig tx with Some s => extract_seal_hash s | None => None end.
+
 Definition case_ok (c : case) : bool :=
-  let '(v, s') := step (table_of_fork (c_fork c)) (c_op c) (c_args c) (c_pre c) in
-  (verdict_code v =? c_verdict c) &&
-  match v with
-  | VOk => mstate_eqb s' (c_post c)
-  | _ => m_mem (c_post c) =? m_mem (c_pre c)      (* a failed step never grows memory *)
+  match c with
+  | mkCase _ fork op a pre vcode post =>
+    let '(v, s') := step (table_of_fork fork) op a pre in
+    (verdict_code v =? vcode) &&
+    match v with
+    | VOk => mstate_eqb s' post
+    | _ => m_mem post =? m_mem pre      (* a failed step never grows memory *)
+    end
+  | mkWire _ tx osig oseal =>
+    opt_bytes_eqb (extract_script_sig tx) osig && opt_bytes_eqb (wire_seal tx) oseal
   end.
 
 Definition mismatches (cs : list case) : list N :=
-  map c_id (filter (fun c => negb (case_ok c)) cs).
+  map case_id (filter (fun c => negb (case_ok c)) cs).
